@@ -11,7 +11,7 @@ Vocabulary (all defined in Model*.lean, which the driver executes against the Go
 -/
 import YouVerif.C13.ProofsApi
 import YouVerif.C13.ProofsIter
-import YouVerif.C13.ProofsComplete
+import YouVerif.C13.ProofsCodec
 import YouVerif.C13.ProofsDb
 import YouVerif.C13.ModelHash
 namespace YouVerif.C13
@@ -92,50 +92,24 @@ theorem proof_sound (H : Hash) (root : List UInt8) (key : List Nib) (p1 p2 : Lis
     verify H root key p1 = verify H root key p2 ∨ ∃ x y : List UInt8, x ≠ y ∧ H x = H y :=
   verifyRaw_agree H p1 p2 _ _ root key h1 h2
 
-/-- **Completeness, modulo the node codec**: for a trie reachable through the API and not empty, the
-proof produced for any key verifies against the root hash to exactly the stored value or to absence
-(or a collision is exhibited) — *provided* decoding the encoding of each node on the path yields a
-node that steps like the original (`Codec`, i.e. `decodeNode ∘ rlp.Encode = id` on these nodes).
-What is proved: which nodes `Prove` emits (embedded ones are skipped), their retrieval by hash, key
-consumption across embedded and hashed nodes, the final answer.  The codec hypothesis is not proved
-here; it is exercised on every honest proof by the correspondence harness. -/
-theorem proof_complete_partial (H : Hash) (t : Node) (hinv : Inv t) (hne : t.isEmpty = false)
-    (k : List UInt8) (hcodec : ∀ m ∈ pathNodes t (hexKey k), Codec H m) :
-    verify H (rootHash H t) (hexKey k) (prove H t (hexKey k)) = answer (lookupB t k) ∨
-      ∃ x y : List UInt8, x ≠ y ∧ H x = H y := by
-  have hk : hexKey k ≠ [] := by simp [hexKey]
-  have hc := compat_of_inv hinv k
-  rw [lookupB_eq_lookup hinv]
-  obtain ⟨x, xs, hx⟩ : ∃ x xs, hexKey k = x :: xs := by
-    cases h : hexKey k with
-    | nil => exact absurd h hk
-    | cons x xs => exact ⟨x, xs, rfl⟩
-  have hv := inv_root_shape hinv hne
-  have hhead : ∃ tl, pathNodes t (hexKey k) = t :: tl := by
-    rw [hx]
-    cases t with
-    | empty => simp at hne
-    | value v => simp at hv
-    | short k n => simp only [pathNodes]; exact ⟨_, rfl⟩
-    | full cs => simp only [pathNodes]; exact ⟨_, rfl⟩
-  obtain ⟨tl, htl⟩ := hhead
-  have htmem : t ∈ pathNodes t (hexKey k) := by rw [htl]; simp
-  have hroot : encBytes H t ∈ prove H t (hexKey k) := by
-    simp [prove, htl, proofElems]
-  unfold verify rootHash
-  apply verify_walk H _ (hexKey k).length t (hexKey k) _ (pathNodes_length hinv.1 _) hinv.1 hk hc hroot
-    (hcodec t htmem)
-  · intro m hm hmh
-    exact ⟨by simp only [prove, List.drop_zero]; exact mem_proofElems 0 hm (isHashed_len hmh), hcodec m hm⟩
-  · simp [verifyFuel]; omega
-
-/-- the full statement (not proved: it needs `decodeNode (rlp.Encode n) = n` for every stored node,
-i.e. the RLP round trip of node.go's codec; values shorter than 2^64 bytes, 32-byte hashes) -/
-def proof_complete_statement : Prop :=
-  ∀ (H : Hash), (∀ x, (H x).length = 32) → ∀ (ops : List Op) (k : List UInt8),
-    (run ops).isEmpty = false → (∀ op ∈ ops, op.2.length < 2 ^ 64) →
+/-- **Completeness**: for every history whose trie is not empty and every key, the proof produced by
+`Prove` verifies against the root hash to exactly the surviving value of the key, or to absence — or two
+different byte strings with the same hash are exhibited.  `H` is any function with 32-byte results (so
+that a hash reference decodes as one); the node encodings on the path are shorter than 2^64 bytes (what
+RLP length prefixes can express).  The proof covers the whole chain: hasher (collapse, < 32-byte
+embedding, forced root), hex-prefix keys, RLP encoding, raw.go-style splitting and `decodeNode`
+(the RLP header round trip is imported from C14), which nodes `Prove` emits, retrieval by hash, key
+consumption across embedded and hashed nodes. -/
+theorem proof_complete (H : Hash) (h32 : ∀ x, (H x).length = 32) (ops : List Op) (k : List UInt8)
+    (hne : (run ops).isEmpty = false)
+    (hsize : ∀ m ∈ pathNodes (run ops) (hexKey k), (encBytes H m).length < 2 ^ 64) :
     verify H (rootHash H (run ops)) (hexKey k) (prove H (run ops) (hexKey k)) = answer (applyMap ops k) ∨
-      ∃ x y : List UInt8, x ≠ y ∧ H x = H y
+      ∃ x y : List UInt8, x ≠ y ∧ H x = H y := by
+  rw [← get_after]
+  apply verify_complete_of_codec H (run ops) (inv_run ops) hne k
+  intro m hm
+  obtain ⟨hw, hs, hv, he⟩ := pathNodes_sub (inv_run ops).1 (noStray_of_inv (inv_run ops) (nev_run ops)) _ m hm
+  exact codec_of H h32 hw hs hv he (hsize m hm)
 
 /-! ### trie.Database (`Db.*` = model of database.go, compared state-for-state with the Go code) -/
 
@@ -200,22 +174,14 @@ example : verify toyH (rootHash toyH t2) (hexKey [1, 2])
 example : (verify toyH (rootHash toyH t2) (hexKey [1, 2]) (prove toyH t2 (hexKey [1, 2]))).isAnswer = true := by decide
 example : (verify toyH (rootHash toyH t2) (hexKey [1, 2]) ([1, 2, 3] :: prove toyH t2 (hexKey [1, 2]))).isAnswer = true := by decide
 
--- the codec hypothesis of `proof_complete_partial` holds of a concrete stored node …
-set_option maxRecDepth 20000 in
-theorem codec_leafTrie : Codec toyH leafTrie := by
-  refine ⟨.short [0, 1, 16] (.value [7]), by rfl, ?_⟩
-  intro key
-  show pget _ _ key = nstep toyH (.short [0, 1, 16] (.value [7])) key
-  simp only [encBytes, pget, nstep]
-  split <;> simp_all [isHashed, enc]
-
--- … so the theorem applies to it
+-- `proof_complete` applies: the toy hash has 32-byte results, the encodings are tiny
+theorem toyH_len (x : List UInt8) : (toyH x).length = 32 := by simp [toyH]
 example : verify toyH (rootHash toyH leafTrie) (hexKey [1]) (prove toyH leafTrie (hexKey [1])) =
-      answer (lookupB leafTrie [1]) ∨ ∃ x y : List UInt8, x ≠ y ∧ toyH x = toyH y :=
-  proof_complete_partial toyH leafTrie (inv_run _) rfl [1] (by
+      answer (applyMap [([1], [7])] [1]) ∨ ∃ x y : List UInt8, x ≠ y ∧ toyH x = toyH y :=
+  proof_complete toyH toyH_len [([1], [7])] [1] rfl (by
     intro m hm
     have : m = leafTrie := by simpa [leafTrie, run, update, tinsert, hexKey, hexNibs, pathNodes, splitCommon] using hm
-    rw [this]; exact codec_leafTrie)
+    rw [this]; decide)
 
 -- trie.Database: a leaf `a`, a root `r` above it, Commit(r) writes both
 def dbS : Db.State := Db.insert (Db.insert {} [0xaa] 40 []) [0xbb] 50 [[0xaa]]
